@@ -18,12 +18,11 @@
                                 5  triple read (SPARQL / find_with_pending) inside a transaction: the RDF store keeps
                                    no snapshot (later commits show) and the scan ignores the transaction's own buffer
                                 6  raw adjacency (neighbours, degrees) — no visibility check at all
-                                7  GrafeoDB::execute_cypher_with_params plans with a private transaction manager
-                                   (viewing epoch 0): nodes committed by transactions that began later are missed
                               A write statement's MATCH is a read too: positions of writes whose matched set
                               differs between model and specification are reported with class + 10, and the
                               evaluation stops there (afterwards the two states are not comparable).
-    [c02_fails ops outs ds] : dump pairs where [atomic_ok] fails, with class 1, 2, 4, 5 (0 = none).
+    [c02_fails ops outs ds] : dump pairs where [atomic_ok] fails, with class 1, 2, 5 (0 = none; class 4, the session
+                              dropped with an open transaction, is repaired: 3eb02b5).
     No proofs in this file. *)
 From Coq Require Import ZArith List Bool.
 Import ListNotations.
@@ -32,6 +31,9 @@ Open Scope Z_scope.
 
 (** model outputs in canonical form *)
 Definition mrun (ops : list op) : list out := map canon (run ops).
+
+(** outputs of the model of the code before the repairs 752d5ee / 3eb02b5 (only for the [_pre_refuted] theorems) *)
+Definition mrun_pre (ops : list op) : list out := map canon (run_pre ops).
 
 (** correspondence: model == implementation on the whole history *)
 Definition chk_hist (ops : list op) (outs : list out) : bool := list_eqb out_eqb (mrun ops) outs.
@@ -179,13 +181,8 @@ Definition classify_read (st : state) (sp : sstate) (s : Z) (k : kind) : Z :=
                                  else if cm then (if sysx then 1 else 4) else (if sysx then 4 else 3)) (range eb)
   | StoreLabel _ | StoreProp _ _ => 2     (* raw label index / property column: unversioned side tables *)
   | FreshLabelScan l =>
-      (* 7 where the ordinary label scan of a session without transaction agrees with the committed database
-         and the scan at the private manager's epoch 0 does not; otherwise the class of the ordinary scan *)
-      first_class (fun n =>
-          let cm := memz n (l_index st l) && Mv st 0 SYSTEM n in
-          if Bool.eqb cm (has_label dc n l) then 0
-          else let cs := scan_class st dc (tm_epoch st) SYSTEM (SelLabel l) n in
-               if cs =? 0 then 7 else cs) (range nb)
+      (* since 752d5ee planned like the label scan of a session without transaction: same classes *)
+      first_class (scan_class st dc (tm_epoch st) SYSTEM (SelLabel l)) (range nb)
   end.
 
 (** the read inside a write statement: does the model select / affect the same entities as the
@@ -257,10 +254,10 @@ Definition c01_k_of (c : Z) (fails : list (Z * Z)) : bool :=
   existsb (fun pc => (snd pc =? c) || (snd pc =? c + 10)) fails.
 Definition c01_k (c : Z) (ops : list op) (outs : list out) : bool := c01_k_of c (c01_fails ops outs).
 (** everything the check needs about one history, in one evaluation: model == implementation, the failing
-    positions with their classes, and [c01_k c] for c = 1 .. 7 *)
+    positions with their classes, and [c01_k c] for c = 1 .. 6 *)
 Definition c01_report (ops : list op) (outs : list out) : bool * list (Z * Z) * list bool :=
   let f := c01_fails ops outs in
-  (chk_hist ops outs, f, map (fun c => c01_k_of c f) [1; 2; 3; 4; 5; 6; 7]).
+  (chk_hist ops outs, f, map (fun c => c01_k_of c f) [1; 2; 3; 4; 5; 6]).
 (** the part of the history the oracle could evaluate satisfies [snapshot_ok] *)
 Definition c01_ok (ops : list op) (outs : list out) : bool :=
   match c01_fails ops outs with [] => true | _ => false end.
@@ -306,8 +303,7 @@ Definition pair_classes (ops : list op) (outs : list out) (d1 d2 : Z * Z * Z) : 
           (* no listed finding touches the committed triple set: a wrong triple answer is never explained *)
           if triple_kind k then 0 else
           match how with
-          | EndDrop => 4
-          | EndRollback =>
+          | EndDrop | EndRollback =>     (* since 3eb02b5 dropping a session rolls its transaction back *)
               if raw_kind k then (if has_creation then 2 else if has_inplace then 1 else 0)
               else (if has_inplace then 1 else 0)
           | EndCommit =>
@@ -351,11 +347,11 @@ Fixpoint ctl_fails_from (sp : sstate) (i : Z) (ops : list op) (outs : list out) 
 Definition ctl_fails (ops : list op) (outs : list out) : list Z := ctl_fails_from sinit 0 ops outs.
 
 (** one evaluation per history: model == implementation, failing dump pairs with classes, number of checkable
-    transactions, and [c02_k c] for c = 1, 2, 4, 5 *)
+    transactions, and [c02_k c] for c = 1, 2, 5 *)
 Definition c02_report (ops : list op) (outs : list out) (ds : list (Z * Z * Z))
   : bool * list (Z * Z) * Z * list bool * list Z :=
   let f := c02_fails ops outs ds in
-  (chk_hist ops outs, f, c02_checked ops outs ds, map (fun c => c02_k_of c f) [1; 2; 4; 5], ctl_fails ops outs).
+  (chk_hist ops outs, f, c02_checked ops outs ds, map (fun c => c02_k_of c f) [1; 2; 5], ctl_fails ops outs).
 
 (** ** dumps (used by the witnesses of the C02 theorems; the harness builds its dumps the same way) *)
 Definition node_dump_kinds (n : Z) : list kind :=
